@@ -107,11 +107,21 @@ def fits_key(c):
     return tot <= Fraction(c['cbw'])
 
 
+class _NoRun:
+    def stream_info(self, *a, **k):
+        pass
+
+
 class Streams:
     """Direct-call streams are collected first, then run together: one worker pool for all implementation calls,
     the Coq evaluations of the different streams side by side."""
     def __init__(self):
         self.items = []
+        self.monitors = []
+
+    def add_monitor(self, name, fn, docs, judge, rule, sig_prefix, resign=None, **info):
+        self.monitors.append(dict(name=name, fn=fn, docs=docs, judge=judge, rule=rule, sig_prefix=sig_prefix,
+                                  resign=resign, info=info))
 
     def add(self, name, fn, cases, to_coq, judge, ctype, key, per_file=300, post=None):
         self.items.append(dict(name=name, fn=fn, cases=cases, to_coq=to_coq, judge=judge, ctype=ctype, key=key,
@@ -120,11 +130,15 @@ class Streams:
     def run(self, run):
         from multiprocessing.pool import ThreadPool
         flat_cases = [dict(fn=it['fn'], case=c) for it in self.items for c in it['cases']]
-        outs = common.run_impl('impl_c11', 'dispatch', flat_cases, chunksize=32)
+        flat_cases += [dict(fn=m['fn'], case=d) for m in self.monitors for d in m['docs']]
+        outs = common.run_impl('impl_c11', 'dispatch', flat_cases, limit=60, chunksize=16)
         pos = 0
         for it in self.items:
             it['outs'] = outs[pos:pos + len(it['cases'])]
             pos += len(it['cases'])
+        for m in self.monitors:
+            m['outs'] = outs[pos:pos + len(m['docs'])]
+            pos += len(m['docs'])
 
         def evaluate(it):
             name, fn = it['name'], it['fn']
@@ -140,8 +154,11 @@ class Streams:
                 return kept, fails, masks, None
             except RuntimeError as exc:
                 return kept, fails, None, str(exc)
-        with ThreadPool(len(self.items)) as tp:
-            results = tp.map(evaluate, self.items)
+        with ThreadPool(max(1, len(self.items))) as tp:
+            async_results = tp.map_async(evaluate, self.items)
+            for m in self.monitors:          # judged in Python while Coq evaluates the direct streams
+                judge_monitor(run, m)
+            results = async_results.get()
         for it, (kept, fails, masks, err) in zip(self.items, results):
             name, fn = it['name'], it['fn']
             for c, o in fails[:2]:
@@ -182,6 +199,7 @@ def check_abs_direct(run, rng, thorough, S):
     cases = gen_axis_cases(rng, n)
     S.add('absolute_width-direct', 'absw', cases, coq_absw_case, 'absw_judge', 'absw_case',
                   lambda c: (pattern_key(c), c['ltr'], fits_key(c), c['minw'] != '0' and c['minw'] != 0, c['maxw'] != 'inf'))
+    run = run or _NoRun()
     run.stream_info('absolute_width-direct',
                     rule='32 auto patterns of (left,right,width,margin-left,margin-right) x 2 values per specified term '
                          '(243 per direction) x {ltr,rtl,root} exhaustively, 35% repeated with min/max-width, + random rationals; decorated function '
@@ -270,6 +288,7 @@ def check_float_direct(run, rng, thorough, S):
                       fbox_lit(c['box']), qlit(o[0]), qlit(o[1])),
                   'ffp_judge', 'ffp_case',
                   lambda c: (len(c['shapes']), c['box']['kind'], regular_key(c['shapes'], c['box']), c['box']['bw']))
+    run = run or _NoRun()
     run.stream_info('find_float_position-direct', rule='0..8 stacked shapes (4% degenerate heights) x left/right float '
                     'with random margins/size (3% zero height), py at a shape edge +- offset; stub context, real Box methods')
     # sequences
@@ -488,8 +507,8 @@ def judge_floats(res):
     floats = [r for r in recs if r['kind'] == 'float']
     byidx = {r['idx']: r for r in recs}
     for f in floats:
-        if f['bh'] < EPS:
-            # zero-height floats are sent to the page origin (open known finding); not generated
+        if f['bh'] < EPS and (f['x'] < f['cbx'] - EPS or f['y'] < f['cby'] - EPS):
+            # zero-height floats are sent to the page origin (open finding F39); not generated, one corpus case
             bad.append(('zero-height-float', f['id'], (f['x'], f['y'])))
     children_of = {}
     for r in recs:
@@ -505,6 +524,8 @@ def judge_floats(res):
         earlier = floats[:i]
         x, y, mw, mh = f['x'], f['y'], f['mw'], f['mh']
         cbx, cbw, cby = f['cbx'], f['cbw'], f['cby']
+        if f['bh'] < EPS:
+            continue
         # rule 1
         if f['side'] == 'left' and x < cbx - EPS:
             bad.append(('rule1-left-edge-inside-cb', f['id'], (x, cbx)))
@@ -584,16 +605,15 @@ def judge_floats(res):
     return bad
 
 
-def run_monitor(run, name, fn, docs, judge, rule, sig_prefix, **info):
-    outs = common.run_impl('impl_c11', fn, docs, limit=60)
+def judge_monitor(run, m):
+    name, fn, docs, judge, resign, sig_prefix = m['name'], m['fn'], m['docs'], m['judge'], m['resign'], m['sig_prefix']
     njudged = 0
-    clauses = set()
-    for d, (st, o) in zip(docs, outs):
+    for d, (st, o) in zip(docs, m['outs']):
         if st == 'timeout':
-            run.fail('%s: render timeout' % name, {'stream': name, 'doc': d}, signature='timeout')
+            run.fail('%s: render timeout' % name, {'stream': name, 'fn': fn, 'doc': d}, signature='timeout')
             continue
         if st == 'exc':
-            run.fail('%s: render raised %s at %s' % (name, o['type'], o['site']), {'stream': name, 'doc': d, 'exc': o},
+            run.fail('%s: render raised %s at %s' % (name, o['type'], o['site']), {'stream': name, 'fn': fn, 'doc': d, 'exc': o},
                      signature='crash:%s' % (o['site'],))
             continue
         bad, n = judge(d, o)
@@ -603,39 +623,548 @@ def run_monitor(run, name, fn, docs, judge, rule, sig_prefix, **info):
             if clause in seen:
                 continue
             seen.add(clause)
+            sig = '%s:%s' % (sig_prefix, clause)
+            if resign:
+                sig = resign(clause, o, d, eid) or sig
             run.fail('%s: %s fails for #%s: %s' % (name, clause, eid, detail),
-                     {'stream': name, 'doc': d, 'clause': clause, 'element': eid, 'detail': detail},
-                     signature='%s:%s' % (sig_prefix, clause))
-    run.count(name, len(docs), [(name, i) for i in range(len(docs))], samples=[str(docs[0])[:700]])
-    run.stream_info(name, rule=rule, judged_boxes=njudged, judge='Python (floats compared with tolerance 1e-4)', **info)
+                     {'stream': name, 'fn': fn, 'doc': d, 'clause': clause, 'element': eid, 'detail': detail},
+                     signature=sig)
+    run.count(name, len(docs), [(name, i) for i in range(len(docs))], samples=[str(docs[0])[:700]] if docs else [])
+    run.stream_info(name, rule=m['rule'], judged_boxes=njudged, judge='Python (floats compared with a stated tolerance)', **m['info'])
 
 
-def check_float_monitor(run, rng, thorough):
+def inline_float_mechanisms(res):
+    """Which of the two open findings about floats met inside a line are at work in this render."""
+    mech = set()
+    byidx = {r['idx']: r for r in res['recs']}
+    for r in res['recs']:
+        if r['kind'] == 'float' and r.get('placed') and byidx.get(r['parent'], {}).get('kind') == 'line':
+            if r['y'] < r['placed'][1] - EPS:
+                mech.add('D')          # F51: realigned to the top of its line after placement
+        if r['kind'] == 'line' and r.get('float_after_content'):
+            mech.add('E')              # F50: content following a float met in mid-line is not shifted
+    return mech
+
+
+def check_float_monitor(S, rng, thorough):
     docs = [{'html': gen_float_doc(rng, inline_floats=False)} for _ in range(3000 if thorough else 600)]
-    run_monitor(run, 'render-floats', 'render_floats', docs,
+    S.add_monitor('render-floats', 'render_floats', docs,
                 lambda d, o: (judge_floats(o), sum(1 for r in o['recs'] if r['kind'] == 'float')),
                 '1..12 left/right floats (fixed size or shrink-to-fit text, margins, padding, borders, clear) as blocks '
                 'and inside paragraphs, with paragraphs, overflow:hidden roots, tables, one nested narrower block; '
                 'containers 150/200/320px; every float judged by the nine rules of 9.5.1 against all earlier floats and '
-                'lines, every line/root/table against every float', 'floats')
+                'lines, every line/root/table against every float', 'floats', resign=float_resign)
+    # floats met inside paragraphs: two open findings (F50, F51) live there; alarms are attributed to them only when
+    # their mechanism is observed in that very render
+    docs = [{'html': gen_float_doc(rng, inline_floats=True)} for _ in range(600 if thorough else 120)]
+    S.add_monitor('render-floats-inline', 'render_floats', docs,
+                lambda d, o: (judge_floats(o), sum(1 for r in o['recs'] if r['kind'] == 'float')),
+                'same grammar with up to 3 floats inside the text of each paragraph', 'floats', resign=float_resign)
+
+
+def float_resign(clause, res, doc=None, eid=None):
+    if clause == 'zero-height-float':
+        return 'zero-height-float-placed-at-page-origin'
+    mech = inline_float_mechanisms(res)
+    if 'E' in mech and clause.startswith('line-overlaps'):
+        return 'inline-float-text-not-shifted'
+    if 'D' in mech:
+        return 'inline-float-realigned-to-line-top'
+    if 'E' in mech:
+        return 'inline-float-text-not-shifted'
+    return None
+
+
+# ------------------------------------------------------------------------- monitor: absolutely positioned
+
+def gen_len(rng, p_auto=0.4, pct=True, neg=False, choices=(0, 5, 10, 20, 30, 60, 100)):
+    r = rng.random()
+    if r < p_auto:
+        return 'auto'
+    v = rng.choice(choices)
+    if neg and rng.random() < 0.2:
+        v = -v
+    if pct and rng.random() < 0.25:
+        return '%d%%' % rng.choice([0, 10, 25, 50])
+    return '%dpx' % v
+
+
+def gen_abs_doc(rng):
+    """absolutely positioned boxes (block or replaced) with each of left/right/width/top/bottom/height/margins
+    auto, px or %, nested in static / relative / absolute ancestors, ltr and rtl."""
+    ids = [0]
+    specs, cbmap = {}, {}
+
+    def nid(p):
+        ids[0] += 1
+        return '%s%d' % (p, ids[0])
+
+    def absbox(cb, parent_dir):
+        eid = nid('a')
+        replaced = rng.random() < 0.25
+        sp = dict(replaced=replaced, ltr=(parent_dir == 'ltr'))
+        st = ['position:absolute']
+        for prop, key in (('left', 'l'), ('right', 'r'), ('top', 't'), ('bottom', 'b')):
+            # against the page area nothing may hang below the page bottom (a box cut by the page bottom loses its
+            # remaining fragment: known, not re-reported)
+            sp[key] = 'auto' if (cb is None and key == 'b') else gen_len(rng, neg=True)
+            st.append('%s:%s' % (prop, sp[key]))
+        sp['w'] = gen_len(rng, p_auto=0.45, choices=(10, 40, 80, 150, 400))
+        sp['h'] = gen_len(rng, p_auto=0.45, choices=(10, 30, 70, 300))
+        for prop, key in (('margin-left', 'ml'), ('margin-right', 'mr'), ('margin-top', 'mt'), ('margin-bottom', 'mb')):
+            sp[key] = gen_len(rng, p_auto=0.35, pct=False, neg=not (cb is None and key == 'mb'), choices=(0, 3, 8, 20))
+            st.append('%s:%s' % (prop, sp[key]))
+        st.append('width:%s' % sp['w']); st.append('height:%s' % sp['h'])
+        sp['minw'], sp['maxw'] = 0, None
+        if not replaced and rng.random() < 0.2:
+            sp['maxw'] = rng.choice([30, 60, 120]); st.append('max-width:%dpx' % sp['maxw'])
+        if not replaced and rng.random() < 0.15:
+            sp['minw'] = rng.choice([50, 100, 200]); st.append('min-width:%dpx' % sp['minw'])
+        if rng.random() < 0.3:
+            st.append('padding:%dpx %dpx' % (rng.choice([0, 2, 5]), rng.choice([1, 4])))
+        if rng.random() < 0.3:
+            st.append('border:%dpx solid' % rng.choice([1, 3]))
+        specs[eid] = sp
+        cbmap[eid] = cb
+        if replaced:
+            return '<img id="%s" src="pattern.png" style="%s">' % (eid, ';'.join(st))
+        return '<div id="%s" style="%s">%s</div>' % (eid, ';'.join(st), rng.choice(['', 'abc', 'abcd ef abc', 'abcdefgh abcdefgh abc']))
+
+    def group(depth, cb, parent_dir):
+        eid = nid('g')
+        pos = rng.choice(['static', 'static', 'relative', 'relative', 'absolute'])
+        st = ['position:%s' % pos]
+        if pos == 'relative' and rng.random() < 0.5:
+            st.append('left:%dpx;top:%dpx' % (rng.choice([0, 7, -4]), rng.choice([0, 5])))
+        if pos == 'absolute':
+            st.append('left:%dpx;top:%dpx;width:%dpx' % (rng.choice([0, 30]), rng.choice([0, 200]), rng.choice([150, 250])))
+        elif rng.random() < 0.6:
+            st.append('width:%dpx' % rng.choice([120, 200, 300]))
+        if rng.random() < 0.5:
+            st.append('height:%dpx' % rng.choice([50, 120, 200]))
+        if rng.random() < 0.4:
+            st.append('padding:%dpx %dpx %dpx %dpx' % tuple(rng.choice([0, 3, 10]) for _ in range(4)))
+        if rng.random() < 0.4:
+            st.append('border:%dpx solid' % rng.choice([1, 2, 6]))
+        if rng.random() < 0.3:
+            st.append('margin:%dpx' % rng.choice([5, 15]))
+        d = parent_dir
+        if rng.random() < 0.25:
+            d = rng.choice(['ltr', 'rtl']); st.append('direction:%s' % d)
+        mycb = eid if pos != 'static' else cb
+        # always some in-flow content first: an empty positioned block with vertical margins gets a negative
+        # height while its absolute children are laid out (reported deviation, not generated)
+        kids = ['<p style="margin:0">ab</p>']
+        for _ in range(rng.choice([1, 1, 2, 3])):
+            r = rng.random()
+            if r < 0.5:
+                kids.append(absbox(mycb, d))
+            elif r < 0.75 and depth < 3:
+                kids.append(group(depth + 1, mycb, d))
+            else:
+                kids.append('<p style="margin:0">abc abcd</p>')
+        return '<div id="%s" style="%s">%s</div>' % (eid, ';'.join(st), ''.join(kids))
+    body = ''.join(group(0, None, 'ltr') for _ in range(rng.choice([1, 2])))
+    if not specs:
+        body += absbox(None, 'ltr')
+    html = ('<style>@page{size:500px 3000px;margin:%dpx}body{margin:0;font-family:weasyprint;font-size:10px;'
+            'line-height:10px}</style>%s' % (rng.choice([0, 20]), body))
+    return dict(html=html, cb=cbmap, specs=specs)
+
+
+def resolve(v, ref):
+    if v == 'auto':
+        return None
+    if v.endswith('%'):
+        return ref * float(v[:-1]) / 100
+    return float(v[:-2])
+
+
+def axis_spec_py(check_neg, ltr, cb0, cbs, b, p, tol):
+    """Python port of model/C11Abs.v axis_spec_b (minus the static-position clause), with a tolerance.
+    b: dict(s, e, z, ms, me: None or number, pad) ; p: dict(x, ms, me, size)."""
+    bad = []
+
+    def eq(a, c):
+        return abs(a - c) <= tol
+    start_used = p['x'] - cb0
+    end_used = cb0 + cbs - (p['x'] + p['ms'] + b['pad'] + p['size'] + p['me'])
+    all3 = b['s'] is not None and b['e'] is not None and b['z'] is not None
+    over = all3 and b['ms'] is not None and b['me'] is not None
+    if over:
+        if not eq(p['size'], b['z']):
+            bad.append('over-constrained:size')
+        if ltr:
+            if not eq(start_used, b['s']):
+                bad.append('over-constrained:start-offset')
+            if not eq(p['ms'], b['ms']):
+                bad.append('over-constrained:start-margin')
+        else:
+            if not eq(end_used, b['e']):
+                bad.append('over-constrained:end-offset')
+            if not eq(p['me'], b['me']):
+                bad.append('over-constrained:end-margin')
+    else:
+        if b['s'] is not None and not eq(start_used, b['s']):
+            bad.append('constraint:start-offset')
+        if b['e'] is not None and not eq(end_used, b['e']):
+            bad.append('constraint:end-offset')
+        if b['z'] is not None and not eq(p['size'], b['z']):
+            bad.append('constraint:size')
+        if b['ms'] is not None and not eq(p['ms'], b['ms']):
+            bad.append('constraint:start-margin')
+        if b['me'] is not None and not eq(p['me'], b['me']):
+            bad.append('constraint:end-margin')
+        if not all3:
+            if b['ms'] is None and not eq(p['ms'], 0):
+                bad.append('auto-margin-zero:start')
+            if b['me'] is None and not eq(p['me'], 0):
+                bad.append('auto-margin-zero:end')
+    if all3 and b['ms'] is None and b['me'] is None:
+        fits = b['s'] + b['pad'] + b['z'] + b['e'] <= cbs + tol
+        if not check_neg or fits:
+            if not eq(p['ms'], p['me']):
+                bad.append('auto-margins-equal')
+        elif ltr and not eq(p['ms'], 0):
+            bad.append('auto-margins-negative:start-zero')
+        elif not ltr and not eq(p['me'], 0):
+            bad.append('auto-margins-negative:end-zero')
+    return bad
+
+
+def judge_abs(doc, res):
+    bad, n = [], 0
+    if res['npages'] != 1:
+        return [('single-page', None, res['npages'])], 0
+    for r in res['boxes']:
+        sp = doc['specs'][r['id']]
+        cbx, cby, cbw, cbh = r['cb']
+        n += 1
+        tol = 1e-6 * max(1.0, abs(cbw), abs(cbh), abs(r['x']), abs(r['y']))
+        W = r['w']
+        z = resolve(sp['w'], cbw)
+        if sp['replaced']:
+            z = W                      # the used size of a replaced box is decided by replaced.py (C05/C13)
+        elif z is not None:
+            if sp['maxw'] is not None and z > sp['maxw']:
+                z = float(sp['maxw'])
+            if z < sp['minw']:
+                z = float(sp['minw'])
+        bh = dict(s=resolve(sp['l'], cbw), e=resolve(sp['r'], cbw), z=z, ms=resolve(sp['ml'], cbw),
+                  me=resolve(sp['mr'], cbw), pad=r['padh'])
+        ph = dict(x=r['x'], ms=r['ml'], me=r['mr'], size=W)
+        fails = axis_spec_py(True, sp['ltr'], cbx, cbw, bh, ph, tol)
+        if fails and z is None and not sp['replaced']:
+            # auto width clamped by min/max-width: the rules are applied with the used width as specified (10.4)
+            clamped = (sp['maxw'] is not None and abs(W - sp['maxw']) <= tol) or abs(W - sp['minw']) <= tol
+            if clamped and not axis_spec_py(True, sp['ltr'], cbx, cbw, dict(bh, z=W), ph, tol):
+                fails = []
+        for f in fails[:1]:
+            bad.append(('abs-horizontal:' + f, r['id'], dict(spec=sp, box=r)))
+        H = r['h']
+        zv = resolve(sp['h'], cbh)
+        if sp['replaced']:
+            zv = H
+        elif zv is not None:             # CSS 2.1 10.7: the rules are applied again with the clamped height
+            if sp.get('maxh') is not None and zv > sp['maxh']:
+                zv = float(sp['maxh'])
+            if zv < sp.get('minh', 0):
+                zv = float(sp['minh'])
+        bv = dict(s=resolve(sp['t'], cbh), e=resolve(sp['b'], cbh), z=zv, ms=resolve(sp['mt'], cbw),
+                  me=resolve(sp['mb'], cbw), pad=r['padv'])
+        pv = dict(x=r['y'], ms=r['mt'], me=r['mb'], size=H)
+        vfails = axis_spec_py(False, True, cby, cbh, bv, pv, tol)
+        if zv is None and bv['s'] is not None and bv['e'] is not None and \
+                bv['s'] + bv['e'] + (bv['ms'] or 0) + (bv['me'] or 0) + bv['pad'] > cbh:
+            # nothing left for the height: it is 0 and bottom gives way (over-constrained)
+            vfails = [f for f in vfails if f != 'constraint:end-offset']
+        for f in vfails[:1]:
+            bad.append(('abs-vertical:' + f, r['id'], dict(spec=sp, box=r)))
+    return bad, n
+
+
+def check_abs_monitor(S, rng, thorough):
+    docs = [gen_abs_doc(rng) for _ in range(2500 if thorough else 500)]
+    S.add_monitor('render-absolute', 'render_abs', docs, judge_abs,
+                'absolutely positioned blocks and images, left/right/width/top/bottom/height auto|px|%, margins auto|px '
+                '(negative too), min/max-width, padding/border, in static/relative/absolute ancestors (depth<=4) with '
+                'padding/border/offsets, ltr/rtl parents; judged against the padding box of the nearest positioned '
+                'ancestor (else the page area) by the Python port of axis_spec_b', 'abs', resign=abs_resign)
+
+
+def abs_resign(clause, res, doc, eid):
+    sp = doc['specs'].get(eid, {})
+    if clause.startswith('abs-vertical') and (sp.get('maxh') is not None or sp.get('minh')):
+        return 'abs-height-min-max-not-reapplied'       # F52 (only the dedicated corpus case uses min/max-height)
+    return None
+
+
+# ------------------------------------------------------------------------------------- monitor: fixed boxes
+
+def gen_fixed_doc(rng):
+    n = rng.choice([1, 2])
+    fixed = []
+    for i in range(n):
+        st = ['position:fixed']
+        for prop in ('left', 'right', 'top', 'bottom'):
+            # nothing hangs below the page bottom (a box cut there is treated as fragmented: known, not re-reported)
+            st.append('%s:%s' % (prop, gen_len(rng, neg=prop != 'bottom')))
+        st.append('width:%s' % gen_len(rng, p_auto=0.5, choices=(10, 40, 80)))
+        height = gen_len(rng, p_auto=0.5, choices=(10, 30))
+        st.append('height:%s' % height)
+        for prop in ('margin-left', 'margin-top', 'margin-right', 'margin-bottom'):
+            st.append('%s:%s' % (prop, gen_len(rng, p_auto=0.5, pct=False, choices=(0, 3, 8))))
+        fixed.append('<div id="x%d" style="%s">%s</div>' % (i, ';'.join(st),
+                                                            rng.choice(['', 'abc', 'ab cd']) if height == 'auto' else ''))
+    blocks = []
+    for k in range(rng.randint(2, 7)):
+        blocks.append('<div id="k%d" style="height:%dpx%s">abc</div>' % (
+            k, rng.choice([40, 90, 150, 260]), ';break-before:page' if rng.random() < 0.2 else ''))
+    blocks.append('<div id="klast" style="height:40px;break-before:page">abc</div>')     # always at least two pages
+    where = rng.choice(['first', 'middle', 'nested'])
+    if where == 'first':
+        body = ''.join(fixed) + ''.join(blocks)
+    elif where == 'middle':
+        # after one short block: the static position stays clear of the page bottom
+        blocks[0] = '<div id="k0" style="height:%dpx">abc</div>' % rng.choice([40, 90])
+        body = blocks[0] + ''.join(fixed) + ''.join(blocks[1:])
+    else:
+        body = '<div id="rel" style="position:relative;left:13px;padding:7px">%s</div>%s' % (''.join(fixed), ''.join(blocks))
+    html = ('<style>@page{size:300px 300px;margin:%dpx}body{margin:0;font-family:weasyprint;font-size:10px;'
+            'line-height:10px}</style>%s' % (rng.choice([0, 15]), body))
+    return dict(html=html, nfixed=n)
+
+
+def judge_fixed(doc, pages):
+    bad = []
+    first = {}
+    if len(pages) < 2:
+        bad.append(('several-pages', None, len(pages)))
+    for pi, seen in enumerate(pages):
+        for i in range(doc['nfixed']):
+            eid = 'x%d' % i
+            if eid not in seen:
+                bad.append(('fixed-box-on-every-page', eid, ('missing on page', pi)))
+                continue
+            if eid not in first:
+                first[eid] = seen[eid]
+            elif any(abs(a - b) > 1e-6 for a, b in zip(first[eid][:4], seen[eid][:4])):
+                bad.append(('fixed-identical-on-every-page', eid, (first[eid], pi, seen[eid])))
+    return bad, len(pages) * doc['nfixed']
+
+
+def check_fixed_monitor(S, rng, thorough):
+    docs = [gen_fixed_doc(rng) for _ in range(600 if thorough else 150)]
+    S.add_monitor('render-fixed', 'render_positions', docs, judge_fixed,
+                  '1..2 position:fixed boxes (offsets/size/margins auto|px|%) met first, after a first block or inside a '
+                  'relative box, 2..8 pages; present with the same rectangle on every page', 'fixed')
+
+
+# ------------------------------------------------------------------------- monitor: relative (metamorphic)
+
+def gen_rel_doc(rng):
+    import re
+    ids = [0]
+    vectors = {}      # id -> ({prop: (value, unit)}, direction)
+    parents = {}
+
+    def nid():
+        ids[0] += 1
+        return 'e%d' % ids[0]
+
+    def offsets(eid, direction, inline):
+        v = {}
+        for prop in ('left', 'right', 'top', 'bottom'):
+            if rng.random() < 0.5:
+                unit = rng.choice(['px', 'px', 'em'] + (['%'] if prop in ('left', 'right') and not inline else []))
+                val = rng.choice([-20, -5, 3, 10, 25]) if unit != '%' else rng.choice([10, 25, -50])
+                if unit == 'em':
+                    val = rng.choice([-1, 1, 2])
+                v[prop] = (val, unit)
+        vectors[eid] = (v, direction)
+
+    def node(depth, parent, direction, force_inline=False):
+        eid = nid()
+        parents[eid] = parent
+        inline = force_inline or (depth > 0 and rng.random() < 0.35)
+        st_plain = []
+        d = direction
+        if rng.random() < 0.15:
+            d = rng.choice(['ltr', 'rtl'])
+            st_plain.append('direction:%s' % d)
+        if not inline:
+            if rng.random() < 0.4:
+                st_plain.append('width:%dpx' % rng.choice([100, 160, 240]))
+            if rng.random() < 0.3:
+                st_plain.append('padding:%dpx' % rng.choice([2, 6]))
+            if rng.random() < 0.3:
+                st_plain.append('margin:%dpx %dpx' % (rng.choice([0, 4]), rng.choice([0, 10])))
+        if rng.random() < 0.45:
+            offsets(eid, d, inline)
+        kids = []
+        if inline:
+            kids.append(rng.choice(['abc', 'ab cd', 'abcdefgh']))
+            if depth < 3 and rng.random() < 0.3:
+                kids.append(node(depth + 1, eid, d, force_inline=True))   # no block inside an inline box
+        else:
+            for _ in range(rng.choice([0, 1, 2, 3]) if depth < 3 else 0):
+                kids.append(node(depth + 1, eid, d))
+            if not kids or rng.random() < 0.3:
+                kids.append('abc abcd')
+            if rng.random() < 0.1:
+                aid = nid()
+                parents[aid] = eid
+                kids.append('<div id="%s" style="position:absolute;left:5px;top:3px;width:20px;height:8px"></div>' % aid)
+        tag = 'span' if inline else 'div'
+        return '<%s id="%s" style="%s{REL:%s}">%s</%s>' % (tag, eid, ';'.join(st_plain + ['']), eid, ''.join(kids), tag)
+    body = ''.join(node(0, None, 'ltr') for _ in range(rng.choice([1, 2, 3])))
+    head = ('<style>@page{size:400px 5000px;margin:10px}body{margin:0;font-family:weasyprint;font-size:10px;'
+            'line-height:10px}</style>')
+
+    def fill(with_offsets):
+        def sub(m):
+            eid = m.group(1)
+            if eid not in vectors:
+                return ''
+            v, _ = vectors[eid]
+            st = ['position:relative']
+            if with_offsets:
+                st += ['%s:%d%s' % (k, a, u) for k, (a, u) in v.items()]
+            return ';'.join(st)
+        return head + re.sub(r'\{REL:(e\d+)\}', sub, body)
+    return dict(html=fill(True), html_plain=fill(False), vectors=vectors, parents=parents)
+
+
+def judge_rel(doc, both):
+    """metamorphic: the same document without the offsets; every element moves by the sum of the vectors of its
+    relatively positioned ancestors-or-self, nothing else changes."""
+    bad = []
+    moved, plain = both['with'], both['without']
+    if len(moved) != 1 or len(plain) != 1:
+        return [('single-page', None, (len(moved), len(plain)))], 0
+    moved, plain = moved[0], plain[0]
+    n = 0
+    for eid, (x0, y0, w0, h0, typ) in plain.items():
+        if eid not in moved:
+            bad.append(('relative-same-boxes', eid, 'missing'))
+            continue
+        x1, y1, w1, h1, _ = moved[eid]
+        dx = dy = 0.0
+        a = eid
+        while a is not None:
+            if a in doc['vectors']:
+                v, direction = doc['vectors'][a]
+                par = doc['parents'].get(a)
+                ref = plain[par][2] if par in plain else 380.0
+
+                def px(t):
+                    val, unit = t
+                    return val * 10.0 if unit == 'em' else ref * val / 100.0 if unit == '%' else float(val)
+                if 'left' in v and ('right' not in v or direction == 'ltr'):
+                    dx += px(v['left'])
+                elif 'right' in v:
+                    dx -= px(v['right'])
+                if 'top' in v:
+                    dy += px(v['top'])
+                elif 'bottom' in v:
+                    dy -= px(v['bottom'])
+            a = doc['parents'].get(a)
+        n += 1
+        if abs(x1 - x0 - dx) > 1e-6 or abs(y1 - y0 - dy) > 1e-6:
+            bad.append(('relative-moves-by-its-vector-only', eid, ((x0, y0), (x1, y1), (dx, dy))))
+        if abs(w1 - w0) > 1e-6 or abs(h1 - h0) > 1e-6:
+            bad.append(('relative-keeps-sizes', eid, ((w0, h0), (w1, h1))))
+    return bad, n
+
+
+def check_rel_monitor(S, rng, thorough):
+    docs = [gen_rel_doc(rng) for _ in range(1500 if thorough else 300)]
+    S.add_monitor('render-relative', 'render_relative_pair', docs, judge_rel,
+                  'random trees (depth<=4) of blocks and inline spans, 45% relatively positioned with left/right/top/bottom '
+                  'in px/em/% (both of a pair too, ltr/rtl), an absolutely positioned child sometimes; metamorphic: same '
+                  'document without the offsets, every element must move by the sum of the vectors of its relative '
+                  'ancestors-or-self and keep its size', 'relative')
+
+
+MONITORS = {
+    'render-floats': ('render_floats', lambda d, o: (judge_floats(o), 0), 'floats', float_resign),
+    'render-floats-inline': ('render_floats', lambda d, o: (judge_floats(o), 0), 'floats', float_resign),
+    'render-absolute': ('render_abs', lambda d, o: judge_abs(d, o), 'abs', abs_resign),
+    'render-fixed': ('render_positions', lambda d, o: judge_fixed(d, o), 'fixed', None),
+    'render-relative': ('render_relative_pair', lambda d, o: judge_rel(d, o), 'relative', None),
+}
+
+
+def check_corpus(S):
+    """minimised cases replayed first: the witnesses of the open findings (their alarms carry the finding's
+    signature through the same attribution as the random streams)."""
+    d = os.path.join(common.VERIF, 'corpus', 'C11')
+    files = sorted(f for f in os.listdir(d) if f.endswith('.json')) if os.path.isdir(d) else []
+    for f in files:
+        case = json.load(open(os.path.join(d, f)))
+        fn, judge, prefix, resign = MONITORS[case['stream']]
+        S.add_monitor('corpus:' + f, fn, [case['doc']], judge, 'corpus/C11/%s: witness of open finding %s, judged by the '
+                      'monitor of stream %s' % (f, case.get('finding'), case['stream']), prefix, resign=resign)
 
 
 def check(run):
     rng = random.Random(run.seed * 7919 + 11)
     thorough = run.tier == 'thorough'
-    common.prove(run, 'C11', ['model/C11Abs.vo'])
+    common.prove(run, 'C11', ['model/C11Abs.vo', 'model/C11Float.vo'])
     run.trusted += ['Coq 8.16.1 kernel (coqc); vm_compute for the cases.v evaluation',
                     'hand-written Gallina models (model/C11Abs.v, model/C11Float.v): tied to /repo by exact-rational '
                     'direct-call correspondence on every run',
-                    'harness stubs (SimpleNamespace/Fraction, shrink_to_fit oracle) and render monitors (Python)']
+                    'harness stubs (SimpleNamespace/Fraction boxes, shrink_to_fit oracle, stub LayoutContext with '
+                    'excluded_shapes) and the render monitors (Python judges)']
+    run.assumptions += ['shrink_to_fit / preferred widths are an oracle of the absolute_width model (any function Q -> Q)',
+                        'the glue absolute_block / absolute_box_layout / float_layout (percent resolution, translate, '
+                        'block_container_layout of the content) is monitored by full renders, not proved',
+                        'line shortening next to floats goes through Pango widths: monitored on rendered text boxes',
+                        'floats met inside a line box (inline.py) are monitored only; two open findings live there (F50, F51)',
+                        'fixed boxes identical on every page and relative positioning moving nothing else: monitored '
+                        '(metamorphic renders); the proved statements are about the pure models']
     S = Streams()
+    check_corpus(S)
     check_abs_direct(run, rng, thorough, S)
     check_float_direct(run, rng, thorough, S)
+    check_float_monitor(S, rng, thorough)
+    check_abs_monitor(S, rng, thorough)
+    check_fixed_monitor(S, rng, thorough)
+    check_rel_monitor(S, rng, thorough)
     S.run(run)
-    check_float_monitor(run, rng, thorough)
+
+
+DIRECT = {}
 
 
 def replay(data):
+    """Re-run the one case of a violation file: 1 when it still fails."""
     d = data.get('data', {})
-    print('nothing to replay for', d.get('stream'))
+    stream = d.get('stream')
+    if stream in MONITORS and 'doc' in d:
+        fn, judge, prefix, resign = MONITORS[stream]
+        (st, o), = common.run_impl('impl_c11', fn, [d['doc']], limit=60)
+        if st != 'ok':
+            print('replay: %s %s' % (st, o))
+            return 1
+        bad, _ = judge(d['doc'], o)
+        print('replay:', [(c, e) for c, e, _ in bad][:8])
+        return 1 if bad else 0
+    if d.get('fn') and 'case' in d:
+        import random
+        S = Streams()
+        rng = random.Random(0)
+        check_abs_direct(None, rng, False, S)
+        check_float_direct(None, rng, False, S)
+        for it in S.items:
+            if it['fn'] == d['fn']:
+                (st, o), = common.run_impl('impl_c11', d['fn'], [d['case']])
+                print('replay: implementation output', st, o)
+                if st != 'ok':
+                    return 1
+                m = common.eval_cases('c11replay', PRE_ABS if d['fn'].startswith('abs') else PRE_FLOAT, it['ctype'],
+                                      [it['to_coq'](d['case'], o)], it['judge'])
+                print('replay: judge mask (1 = model differs, 2 = spec violated):', m)
+                return 1 if m[0] else 0
+    print('nothing to replay for', stream)
     return 0
